@@ -45,6 +45,9 @@ var (
 		{"2001:db8::/32"},
 		{"203.0.113.0/24", "2001:db8::/32", "203.0.113.0/25"},
 		{},
+		// IPv4 ranges written in IPv4-mapped IPv6 form denote the IPv4 range
+		{"::ffff:203.0.113.0/120", "2001:db8::/32"},
+		{"::ffff:0.0.0.0/96"},
 	}
 	denySets = [][]string{
 		{"10.0.0.0/8", "127.0.0.0/8", "192.168.0.0/16"},
@@ -54,6 +57,8 @@ var (
 		{"2001:db8:dead::/48"},
 		{"203.0.113.128/25", "2001:db8:dead::/48", "10.0.0.0/8", "10.0.0.0/16"},
 		{"203.0.113.7/32", "198.51.100.127/32"},
+		{"::ffff:10.0.0.0/104", "::ffff:127.0.0.0/104", "192.168.0.0/16"},
+		{"::ffff:203.0.113.128/121", "2001:db8:dead::/48"},
 	}
 	// entries that are not in CIDR form match nothing: among them bare
 	// addresses of the pool and bare addresses that share a /32 (or /8) with them
